@@ -141,3 +141,14 @@ def _(self, gap, best_obj, limit, iteration, init):
     # objective of the first solution of the enumeration (threaded through the recursion as best_obj)
     ensures(implies(best_obj is not None, all_yields(lambda y: y[1] < (1 + gap) * best_obj + 0.00001)), label="within-gap")
     ensures(all_yields(lambda y: y[1] >= 0), label="nonneg")
+
+
+# C05 "no binary assignment is yielded twice ... any feasible within-gap assignment that is not yielded has a superset
+# of the active binaries of some yielded solution": the cut added after a yield (slice of Gurobi.solutions: the
+# statement inside `if not limit or iteration + 1 < limit:`), for an arbitrary table vv of the active binaries.
+# Lemma L-cut connects the emitted constraint with the clause.
+
+@contract("aldy.lpinterface.Gurobi.solutions@cut", native=False)
+def _(self, vv):
+    types(self="CBC", vv="Dict[str, LinVar]")
+    emits(self, 0.0 + sum(v for v in vv.values()) <= len(vv) - 1, None)
